@@ -22,7 +22,8 @@ import c05_spec
 from codec_terms import q
 
 THEOREMS = ["C05_write_json_generic", "C05_json_conforms", "C05_json_no_nonconforming_row", "C05_json_env_ok",
-            "C05_write_json_object", "C05_write_json_store_partial", "C05_leaf_hypotheses",
+            "C05_write_json_object", "C05_write_json_members_present", "C05_write_json_store_partial",
+            "C05_conforms_rejects_dropped_falsy_value", "C05_leaf_hypotheses",
             "C05_conforms_rejects_swapped_members", "C05_conforms_rejects_null_member",
             "C05_conforms_rejects_swapped_literals", "C05_spec_tables_use_sdk_reader", "C05_spec_documents_conform",
             "C05_read_json_compat", "C05_read_json_partial", "C05_read_json_explicit_defaults_partial",
@@ -238,12 +239,15 @@ BCP47_SHAPE = {"deu": "3-letter", "EN": "upper-case", "x-private": "private-use"
                "art-lojban": "grandfathered", "abcd": "4-letter", "abcdefgh": "5-8-letter"}
 
 
-def variants(rng, canons):
-    """yield (knobs, (class, member, facet)) after mutating `canons` in place towards a spec-valid form the SDK's own
-    writer never emits; one variant per call site so that a failure is attributed to exactly one form"""
-    kind = rng.choice(["explicit:Submodel.kind", "explicit:SubmodelElementList.order_relevant", "name128", "langtag",
-                       "abstract-list", "literal", "key-abstract", "shuffle", "xml-ws", "xml-bool-num", "langtag",
-                       "literal", "name128", "xml-prefix"])
+VARIANT_KINDS = ["explicit:Submodel.kind", "explicit:SubmodelElementList.order_relevant", "name128", "langtag",
+                 "abstract-list", "literal", "key-abstract", "shuffle", "xml-ws:xs:boolean", "xml-ws:xs:base64Binary",
+                 "xml-bool-num", "xml-prefix", "xml-noise"]
+
+
+def variants(kind, rng, canons):
+    """(knobs, (class, member, facet)) after mutating `canons` in place towards a spec-valid form the SDK's own writer
+    never emits, or (None, None) when the store offers no place for this form; one form per document so that a failure
+    is attributed to exactly one of them.  Every kind is tried on every store."""
     if kind.startswith("explicit:"):
         cls, attr = kind[9:].split(".")
         if collect(canons, lambda c: c["_class"] == cls):
@@ -295,13 +299,23 @@ def variants(rng, canons):
             return {}, ("Key", "type", "enum:abstract-key-type")
     elif kind == "shuffle":
         return {"shuffle": rng}, ("*", "*", "member-order")
-    elif kind == "xml-ws":
-        which = rng.choice(["xs:boolean", "xs:base64Binary"])
-        return {"xml_ws": which}, (which, "*", "whitespace-collapse")
+    elif kind.startswith("xml-ws:"):
+        which = kind[7:]
+        if which == "xs:base64Binary":
+            there = collect(canons, lambda c: c["_class"] == "Blob" and c.get("value") is not None)
+        else:
+            there = collect(canons, lambda c: (c["_class"] == "SubmodelElementList" and c.get("order_relevant") is False)
+                            or (c["_class"] == "DataSpecificationIEC61360" and c.get("level_types")))
+        if there:
+            return {"xml_ws": which}, (which, "*", "whitespace-collapse")
     elif kind == "xml-prefix":
         return {"xml_prefix": rng.choice([None, "x", "ns0"])}, ("*", "*", "namespace-prefix")
+    elif kind == "xml-noise":
+        return {"xml_noise": rng}, ("*", "*", "comment-or-processing-instruction")
     elif kind == "xml-bool-num":
-        return {"xml_bool_num": True}, ("xs:boolean", "*", "numeric-literal")
+        if collect(canons, lambda c: (c["_class"] == "SubmodelElementList" and c.get("order_relevant") is False)
+                   or (c["_class"] == "DataSpecificationIEC61360" and c.get("level_types"))):
+            return {"xml_bool_num": True}, ("xs:boolean", "*", "numeric-literal")
     return None, None
 
 
@@ -318,9 +332,9 @@ def read_oracle(chk, judges, twin, t, rng, store, i):
     canonical form they were written from"""
     base = [c05_spec.norm(aasgen.canon(o)) for o in store]
     jobs = [(json.loads(json.dumps(base)), {}, None)]
-    for _ in range(3):
+    for kind in VARIANT_KINDS:
         canons = json.loads(json.dumps(base))
-        knobs, vsig = variants(rng, canons)
+        knobs, vsig = variants(kind, rng, canons)
         if knobs is not None:
             jobs.append((canons, knobs, vsig))
     baseline_failed = set()
@@ -328,7 +342,8 @@ def read_oracle(chk, judges, twin, t, rng, store, i):
         canons = [c05_spec.norm(c) for c in canons]
         exp = {c["id"]: c for c in canons}
         for fmt in ("json", "xml"):
-            if vsig and ((fmt == "json" and vsig[2] in ("whitespace-collapse", "numeric-literal", "namespace-prefix"))
+            if vsig and ((fmt == "json" and vsig[2] in ("whitespace-collapse", "numeric-literal", "namespace-prefix",
+                                                      "comment-or-processing-instruction"))
                          or (fmt == "xml" and vsig[2] == "member-order")):
                 continue
             if vsig and fmt in baseline_failed:
@@ -398,7 +413,13 @@ def sig(direction, fmt, err):
     return f"C05:{direction}:{fmt}:{cls}:{member}:{facet}"
 
 
-def write_oracle(chk, judges, twin, store, i, strings):
+def skeleton_sig(fmt, d):
+    path = d.partition(": ")[0]
+    parts = [p.split("[")[0] for p in path.split("/") if p and p not in ("kids",)]
+    return f"C05:write:{fmt}:mapping:{'/'.join(parts[-2:])}:{'missing-or-extra' if 'missing' in d or 'length' in d else 'differs'}"
+
+
+def write_oracle(chk, judges, twin, store, i, strings, t=None):
     """SDK-written JSON and XML of one generated store, judged by the real validators"""
     from basyx.aas.adapter.json import write_aas_json_file
     from basyx.aas.adapter.xml import write_aas_xml_file
@@ -418,6 +439,20 @@ def write_oracle(chk, judges, twin, store, i, strings):
             chk.fail(sig("write", "json", e), f"SDK-written JSON of a generated store is not schema-valid: {e}",
                      {"how": f"seed={chk.seed} store #{i} ({strings}); re-run ./check C05", "ids": ids, "error": list(e),
                       "document": d})
+    canons = [c05_spec.norm(aasgen.canon(o)) for o in store]
+    iw = c05_spec.IndependentWriter(t or twin.t, {})
+    try:
+        df = aasgen.diff(c05_spec.jskel(iw.json_env(canons)), c05_spec.jskel(d))
+    except Exception as e:
+        chk.tie_broken("independent-writer", f"json skeleton: {type(e).__name__}: {e}")
+        df = None
+    chk.count("mapping:json:" + ("differs" if df else "same"))
+    if df:
+        chk.fail(skeleton_sig("json", df),
+                 "SDK-written JSON differs from the document the mapping prescribes (names, nesting, strings; typed literals "
+                 f"and defaulted attributes masked): prescribed != written at {df[:300]}",
+                 {"how": f"seed={chk.seed} store #{i} ({strings}); re-run ./check C05", "ids": ids, "difference": df,
+                  "document": d})
     for cls, member, vt, lit in c05_spec.typed_values_json(d):
         chk.count("lexical:json:" + vt)
         if c05_spec.lexical_ok(vt, lit) is False:
@@ -428,6 +463,18 @@ def write_oracle(chk, judges, twin, store, i, strings):
     bio = io.BytesIO()
     write_aas_xml_file(bio, store)
     root = judges.etree.fromstring(bio.getvalue())
+    try:
+        df = aasgen.diff(c05_spec.xskel(iw.xml_env(canons)), c05_spec.xskel(root))
+    except Exception as e:
+        chk.tie_broken("independent-writer", f"xml skeleton: {type(e).__name__}: {e}")
+        df = None
+    chk.count("mapping:xml:" + ("differs" if df else "same"))
+    if df:
+        chk.fail(skeleton_sig("xml", df),
+                 "SDK-written XML differs from the document the mapping prescribes (element names, nesting, text; typed "
+                 f"literals and defaulted attributes masked): prescribed != written at {df[:300]}",
+                 {"how": f"seed={chk.seed} store #{i} ({strings}); re-run ./check C05", "ids": ids, "difference": df,
+                  "document": bio.getvalue().decode("utf-8")[:20000]})
     for cls, member, vt, lit in c05_spec.typed_values_xml(root):
         chk.count("lexical:xml:" + vt)
         if c05_spec.lexical_ok(vt, lit) is False:
@@ -453,7 +500,7 @@ def write_oracle(chk, judges, twin, store, i, strings):
 def run(chk):
     rng = chk.rng
     quick = chk.tier == "quick"
-    n_store, n_jcases, n_xcases, n_read = (200, 240, 150, 130) if quick else (2400, 1800, 900, 1500)
+    n_store, n_jcases, n_xcases, n_read = (160, 220, 140, 60) if quick else (2400, 1800, 900, 900)
     gen_ok = regenerate(chk)
     if gen_ok:
         ok = chk.theorems("props.C05", THEOREMS, VO)
@@ -623,6 +670,7 @@ def run(chk):
         "translators tools/py2coq/schemas.py (fail-closed flattening of allOf / $ref / oneOf and of xs:group / xs:sequence / xs:choice), jsonrules.py, xmlrules.py",
         "specification-side table in tools/py2coq/schemas.py: attribute -> member name, constrained string types, lexical space -> schema pattern, cardinalities 1..*, DataTypeDefXsd (30 literals); aasgen.META cross-checked against constructor signatures each run",
         "`pattern` facets are not interpreted in Coq: theorems hold for every pattern oracle pm; in the correspondence Python's re decides them (JSON patterns on UTF-16 code units as ECMA-262 prescribes; XSD patterns by an own translation to re.fullmatch; xs:boolean / xs:base64Binary by own regular expressions)",
+        "mapping-skeleton oracle: SDK output must equal the independent writer's document in names, nesting and strings (typed literals and defaulted attributes masked)",
         "typed XSD values / bytes are leaves identified by their literal (C06); JSON text layer json.dumps/loads, XML text layer lxml",
         "real validators as judges: jsonschema Draft 2019-09 (its `pattern` keyword re-implemented on UTF-16 code units for documents with astral characters), lxml.etree.XMLSchema (libxml2); libxml2 reads the range \\]-~ of the contentType pattern as three characters, so quoted content-type parameters are generated in upper case",
         "lexical spaces of the 30 XSD value types as regular expressions + integer ranges in tools/c05_spec.py (written from XML Schema Part 2), applied to every typed value / min / max of SDK output in both formats",
